@@ -31,6 +31,7 @@ def REQUIRED(tier):  # noqa: N802
             "sequences_with_identical_object_repeated": 100,
             "sequences_with_a_None_element": 100,
             "dist[absabs+1]": 50, "dist[mixedtypes]": 50,
+            "tag_function_style[3]": 30, "tag_function_style[4]": 30,
             "ties_inside_horizon": 300, "beyond_horizon_entries": 1000,
             "swap_pairs": 518400 + 14400 + 576 + 36 + 4 + 1
             if tier == "quick" else 25_000_000}
@@ -225,7 +226,7 @@ def gen_sequence(rng):
             i, j = sorted(int(v) for v in rng.choice(k, 2, replace=False))
             same.append([i, j])
     return {"dist": dk, "vals": vals, "power": power, "horizon": horizon,
-            "same": same,
+            "same": same, "tagstyle": int(rng.integers(5)),
             "none_at": int(rng.integers(k)) if rng.integers(4) == 0 else None}
 
 
@@ -256,9 +257,27 @@ def judge_instance(ctx, case):
         def unwrap(o):
             return o
     ctx.case()
+    # what the tag function hands back: a str, a tuple, a fresh list or a
+    # generator - all are `str | Iterable[str]`. (NOT one list object that
+    # the function refills on every call: when the constructor reads what it
+    # was handed is its own business - see DESIGN.md section 9.)
+    tagstyle = int(case.get("tagstyle", 0))
+
+    def get_tags(o):
+        t = str(unwrap(o)[0])
+        if tagstyle == 1:
+            return (t,)
+        if tagstyle == 2:
+            return [t]
+        if tagstyle == 3:
+            return iter([t])
+        if tagstyle == 4:
+            return (v for v in [t])
+        return t
+    ctx.count(f"tag_function_style[{tagstyle}]")
     inst = Instance.from_sequence_and_distance(
         list(objs), lambda a, b: df(unwrap(a)[1], unwrap(b)[1]), power,
-        horizon, ("pos",), lambda o: str(unwrap(o)[0]),
+        horizon, ("pos",), get_tags,
         name=("seq" if len(objs) % 2 else None))
     ctx.count("instances_judged")
     ctx.count(f"dist[{dk}]")
